@@ -27,6 +27,15 @@ RULE = ("per (scenario, victim role) the adversary endpoint is a real "
         "driver steps against a per-scenario budget), peak memory "
         "(tracemalloc on bomb-prone classes, RSS high-water mark elsewhere), "
         "closed / non-resumable afterwards, fatal alert on the wire for "
+        "Operators include compressed-certificate bombs (zlib, brotli "
+        "many blocks / one 16 MiB block), pre_shared_key structure, DER "
+        "tree edits and object identifiers replaced, RSA premasters of "
+        "every length really encrypted, hostile server names (these in "
+        "a forked child under a CPU-time limit, because a loop inside C "
+        "code is invisible to the call meter); record-level attacks "
+        "before each message and on the established connection; after a "
+        "failure the socket is closed, the connection state reset and "
+        "what the SessionCache serves is dead.   "
         "self-diagnosed failures. distinct_nontrivial = distinct "
         "(scenario, role, message type, operator, outcome) cells.")
 ASSUMPTIONS = [
